@@ -2,6 +2,7 @@ package vpg
 
 import (
 	"fmt"
+	"regexp"
 	"strconv"
 	"strings"
 )
@@ -133,40 +134,33 @@ func (p *parser) fail(at int, format string, args ...any) {
 	panic(parseError{fmt.Errorf("vpg: %s, at %s", fmt.Sprintf(format, args...), where)})
 }
 
-func (p *parser) peek() token        { return p.toks[p.i] }
-func (p *parser) isKw(w string) bool { t := p.peek(); return t.k == tIdent && t.s == w }
-func (p *parser) isOp(o string) bool { t := p.peek(); return t.k == tOp && t.s == o }
-func (p *parser) acceptKw(ws ...string) bool {
-	for _, w := range ws {
-		if p.isKw(w) {
-			p.i++
-			return true
-		}
-	}
-	return false
-}
+func (p *parser) peek() token { return p.toks[p.i] }
 
-func (p *parser) acceptOp(os ...string) bool {
-	for _, o := range os {
-		if p.isOp(o) {
-			p.i++
-			return true
-		}
-	}
-	return false
-}
-
-func (p *parser) expectKw(words ...string) {
+// is reports whether the next token is the given keyword or operator.
+func (p *parser) is(words ...string) bool {
+	t := p.peek()
 	for _, w := range words {
-		if !p.acceptKw(w) {
+		if (t.k == tIdent || t.k == tOp) && t.s == w {
+			return true
+		}
+	}
+	return false
+}
+
+func (p *parser) accept(words ...string) bool {
+	if p.is(words...) {
+		p.i++
+		return true
+	}
+	return false
+}
+
+// expect consumes the given keywords / operators, in sequence.
+func (p *parser) expect(words ...string) {
+	for _, w := range words {
+		if !p.accept(w) {
 			p.fail(p.i, "expected %s", strings.ToUpper(w))
 		}
-	}
-}
-
-func (p *parser) expectOp(o string) {
-	if !p.acceptOp(o) {
-		p.fail(p.i, "expected %q", o)
 	}
 }
 
@@ -189,44 +183,31 @@ func (p *parser) setStatic(state, format string, args ...any) {
 
 // ---------------------------------------------------------------- functions
 
-// parseFunction parses one CREATE FUNCTION statement (without its final ';').
+var reHeader = regexp.MustCompile(`(?is)^create\s+(?:or\s+replace\s+)?function\s+([a-z_]\w*)\s*\(\s*([a-z_]\w*)\s+jsonb\s*\)` +
+	`\s*returns\s+bool(?:ean)?\s+as\s+\$\$(.*)\$\$\s*language\s+(?:'plpgsql'|plpgsql)(?:\s+immutable)?$`)
+
+var reBody = regexp.MustCompile(`(?s)\$\$.*\$\$`)
+
+// parseFunction parses one CREATE FUNCTION statement (comments outside the
+// body removed, no final ';'). Only the generator's header shape is accepted:
+// one jsonb parameter, RETURNS boolean, $$ body $$, LANGUAGE plpgsql
+// [IMMUTABLE]; in particular STRICT, which changes the semantics, is refused.
 func parseFunction(text string) (f *Func, err error) {
+	m := reHeader.FindStringSubmatch(text)
+	if m == nil || reserved[strings.ToLower(m[1])] || reserved[strings.ToLower(m[2])] {
+		header := strings.Join(strings.Fields(reBody.ReplaceAllString(text, "$$$$...$$$$")), " ")
+		return nil, fmt.Errorf("vpg: unsupported function header or attributes: %q", header)
+	}
+	f = &Func{Name: strings.ToLower(m[1]), Param: strings.ToLower(m[2]), Source: m[3]}
 	defer func() {
 		if r := recover(); r != nil {
 			pe, ok := r.(parseError)
 			if !ok {
 				panic(r)
 			}
-			if f.Name != "" {
-				pe.error = fmt.Errorf("function %s: %w", f.Name, pe.error)
-			}
-			f, err = nil, pe.error
+			f, err = nil, fmt.Errorf("function %s: %w", m[1], pe.error)
 		}
 	}()
-	f = &Func{}
-	p := newParser(text)
-	p.expectKw("create")
-	if p.acceptKw("or") {
-		p.expectKw("replace")
-	}
-	p.expectKw("function")
-	f.Name = p.expectTok(tIdent, "function name").s
-	p.expectOp("(")
-	f.Param = p.expectTok(tIdent, "parameter name").s
-	p.expectKw("jsonb")
-	p.expectOp(")")
-	p.expectKw("returns")
-	if !p.acceptKw("boolean", "bool") {
-		p.fail(p.i, "expected return type boolean")
-	}
-	p.expectKw("as")
-	f.Source = p.expectTok(tDollar, "$$ body $$").s
-	p.expectKw("language")
-	if !p.acceptKw("plpgsql") && strings.ToLower(p.expectTok(tString, "language plpgsql").s) != "plpgsql" {
-		p.fail(p.i-1, "expected language plpgsql")
-	}
-	p.acceptKw("immutable")
-	p.expectTok(tEOF, "end of statement (unsupported function attribute)")
 	parseBody(f)
 	return f, nil
 }
@@ -242,27 +223,27 @@ func newParser(src string) *parser {
 func parseBody(f *Func) {
 	p := newParser(f.Source)
 	p.vars = map[string]typ{f.Param: tyJSONB}
-	if p.acceptKw("declare") {
-		for !p.isKw("begin") {
+	if p.accept("declare") {
+		for !p.is("begin") {
 			d := decl{name: p.expectTok(tIdent, "variable name").s}
 			if _, dup := p.vars[d.name]; dup {
 				p.fail(p.i-1, "variable %s redeclared (shadowing is not modelled)", d.name)
 			}
-			if !p.acceptKw("boolean", "bool") {
+			if !p.accept("boolean", "bool") {
 				p.fail(p.i, "unsupported variable type (only boolean)")
 			}
-			if p.acceptOp(":=") || p.acceptKw("default") {
+			if p.accept(":=") || p.accept("default") {
 				d.init = p.parseBoolTop("initial value of " + d.name)
 			}
-			p.expectOp(";")
+			p.expect(";")
 			p.vars[d.name] = tyBool // visible to the following declarations only
 			f.decls = append(f.decls, d)
 		}
 	}
-	p.expectKw("begin")
+	p.expect("begin")
 	f.body = p.parseStmts()
-	p.expectKw("end")
-	p.acceptOp(";")
+	p.expect("end")
+	p.accept(";")
 	p.expectTok(tEOF, "end of body")
 	f.calls = p.allCalls
 }
@@ -270,7 +251,7 @@ func parseBody(f *Func) {
 // --------------------------------------------------------------- statements
 
 func (p *parser) parseStmts() (out []*stmt) {
-	for !p.isKw("end") && !p.isKw("else") && !p.isKw("when") {
+	for !p.is("end") && !p.is("else") && !p.is("when") {
 		out = append(out, p.parseStmt())
 	}
 	return out
@@ -280,30 +261,30 @@ func (p *parser) parseStmt() *stmt {
 	s := &stmt{}
 	t := p.peek()
 	switch {
-	case p.acceptKw("if"):
+	case p.accept("if"):
 		s.k = sIf
 		s.conds = []*topExpr{p.parseBoolTop("IF condition")}
-		p.expectKw("then")
+		p.expect("then")
 		s.blocks = [][]*stmt{p.parseStmts()}
 		p.parseElse(s, "if")
-	case p.acceptKw("case"):
+	case p.accept("case"):
 		s.k = sCase
-		if !p.isKw("when") {
+		if !p.is("when") {
 			p.fail(p.i, "only the searched form CASE WHEN cond THEN ... is supported")
 		}
-		for p.acceptKw("when") {
+		for p.accept("when") {
 			s.conds = append(s.conds, p.parseBoolTop("WHEN condition"))
-			p.expectKw("then")
+			p.expect("then")
 			s.blocks = append(s.blocks, p.parseStmts())
 		}
 		p.parseElse(s, "case")
-	case p.acceptKw("return"):
+	case p.accept("return"):
 		s.k, s.e = sReturn, p.parseBoolTop("RETURN value")
-	case p.acceptKw("raise"):
+	case p.accept("raise"):
 		s.k = sRaise
-		p.expectKw("warning")
+		p.expect("warning")
 		format := p.expectTok(tString, "RAISE format string")
-		for p.acceptOp(",") {
+		for p.accept(",") {
 			s.conds = append(s.conds, p.parseTop())
 		}
 		if want := strings.Count(strings.ReplaceAll(format.s, "%%", ""), "%"); want != len(s.conds) {
@@ -318,15 +299,15 @@ func (p *parser) parseStmt() *stmt {
 	default:
 		p.fail(p.i, "unsupported statement")
 	}
-	p.expectOp(";")
+	p.expect(";")
 	return s
 }
 
 func (p *parser) parseElse(s *stmt, closing string) {
-	if p.acceptKw("else") {
+	if p.accept("else") {
 		s.hasElse, s.els = true, p.parseStmts()
 	}
-	p.expectKw("end", closing)
+	p.expect("end", closing)
 }
 
 // parseTop parses one top-level SQL expression.
@@ -358,7 +339,7 @@ func (p *parser) parseBoolTop(what string) *topExpr {
 
 func (p *parser) parseExpr() *expr {
 	l := p.parseAnd()
-	for p.acceptKw("or") {
+	for p.accept("or") {
 		l = p.mkLogic(eOr, "OR", l, p.parseAnd())
 	}
 	return l
@@ -366,27 +347,27 @@ func (p *parser) parseExpr() *expr {
 
 func (p *parser) parseAnd() *expr {
 	l := p.parseNot()
-	for p.acceptKw("and") {
+	for p.accept("and") {
 		l = p.mkLogic(eAnd, "AND", l, p.parseNot())
 	}
 	return l
 }
 
 func (p *parser) parseNot() *expr {
-	if p.acceptKw("not") {
+	if p.accept("not") {
 		return p.mkLogic(eNot, "NOT", p.parseNot())
 	}
 	l := p.parseIn()
 	k := eEq
 	switch {
-	case p.acceptOp("="):
-	case p.acceptOp("!=", "<>"):
+	case p.accept("="):
+	case p.accept("!=", "<>"):
 		k = eNe
 	default:
 		return l
 	}
 	args := []*expr{l, p.parseIn()}
-	if p.isOp("=") || p.isOp("!=") || p.isOp("<>") {
+	if p.is("=") || p.is("!=") || p.is("<>") {
 		p.fail(p.i, "comparison operators are not associative")
 	}
 	p.unify(args)
@@ -395,22 +376,22 @@ func (p *parser) parseNot() *expr {
 
 func (p *parser) parseIn() *expr {
 	l := p.parseOther()
-	if p.isKw("is") || p.isKw("not") || p.isKw("between") || p.isKw("like") {
+	if p.is("is") || p.is("not") || p.is("between") || p.is("like") {
 		p.fail(p.i, "unsupported predicate")
 	}
-	if !p.acceptKw("in") {
+	if !p.accept("in") {
 		return l
 	}
-	p.expectOp("(")
-	if p.isKw("select") {
+	p.expect("(")
+	if p.is("select") {
 		p.fail(p.i, "IN (sub-select) is not supported")
 	}
 	args := []*expr{l, p.parseExpr()}
-	for p.acceptOp(",") {
+	for p.accept(",") {
 		args = append(args, p.parseExpr())
 	}
-	p.expectOp(")")
-	if p.isKw("in") {
+	p.expect(")")
+	if p.is("in") {
 		p.fail(p.i, "IN is not associative")
 	}
 	p.unify(args)
@@ -419,7 +400,7 @@ func (p *parser) parseIn() *expr {
 
 func (p *parser) parseOther() *expr {
 	l := p.parseUnary()
-	for p.isOp("->") || p.isOp("->>") || p.isOp("#>>") {
+	for p.is("->") || p.is("->>") || p.is("#>>") {
 		op := p.peek().s
 		p.i++
 		at := p.i
@@ -444,15 +425,15 @@ func (p *parser) parseOther() *expr {
 }
 
 func (p *parser) parseUnary() *expr {
-	if p.acceptOp("-") {
+	if p.accept("-") {
 		if p.peek().k != tNum {
 			p.fail(p.i, "unary minus is only supported on integer literals")
 		}
 		return p.intLit("-")
 	}
 	x := p.parsePrimary()
-	for p.acceptOp("::") {
-		if !p.acceptKw("int", "integer", "int4") {
+	for p.accept("::") {
+		if !p.accept("int", "integer", "int4") {
 			p.fail(p.i, "unsupported cast target (only ::int)")
 		}
 		switch {
@@ -484,20 +465,20 @@ func (p *parser) parsePrimary() *expr {
 	case t.k == tString:
 		p.i++
 		return &expr{k: eLit, t: tyUnknown, val: value{k: vText, s: t.s}}
-	case p.acceptOp("("):
-		if p.isKw("select") {
+	case p.accept("("):
+		if p.is("select") {
 			return p.parseSub()
 		}
 		e := p.parseExpr()
-		p.expectOp(")")
+		p.expect(")")
 		return e
-	case p.acceptKw("true", "false"):
+	case p.accept("true", "false"):
 		return &expr{k: eLit, t: tyBool, val: value{k: vBool, b: t.s == "true"}}
-	case p.acceptKw("null"):
+	case p.accept("null"):
 		return &expr{k: eLit, t: tyUnknown}
 	case t.k == tIdent && !reserved[t.s]:
 		p.i++
-		if p.acceptOp("(") {
+		if p.accept("(") {
 			return p.parseCall(t.s)
 		}
 		return p.resolve(t.s)
@@ -513,7 +494,7 @@ func (p *parser) parseCall(name string) *expr {
 		p.fail(at, "%s is only supported in (SELECT bool_and(expr) FROM jsonb_each|jsonb_array_elements(expr))", name)
 	}
 	arg := p.parseExpr()
-	if !p.acceptOp(")") {
+	if !p.accept(")") {
 		p.fail(p.i, "function calls must have exactly one argument")
 	}
 	p.requireJSONB(arg, at, "function "+name)
@@ -533,7 +514,7 @@ func (p *parser) parseCall(name string) *expr {
 func (p *parser) parseSub() *expr {
 	const shape = "only (SELECT bool_and(expr) FROM jsonb_each(expr) | jsonb_array_elements(expr)) is supported"
 	p.i++ // select
-	if !p.acceptKw("bool_and") || !p.acceptOp("(") {
+	if !p.accept("bool_and") || !p.accept("(") {
 		p.fail(p.i, shape)
 	}
 	argStart := p.i
@@ -541,23 +522,23 @@ func (p *parser) parseSub() *expr {
 		switch {
 		case p.peek().k == tEOF:
 			p.fail(argStart, "unbalanced parenthesis after bool_and(")
-		case p.isOp("("):
+		case p.is("("):
 			depth++
-		case p.isOp(")"):
+		case p.is(")"):
 			depth--
 		}
 	}
 	argEnd := p.i - 1
-	if !p.acceptKw("from") {
+	if !p.accept("from") {
 		p.fail(p.i, shape)
 	}
 	srf := p.peek().s
-	if !p.acceptKw("jsonb_each", "jsonb_array_elements") || !p.acceptOp("(") {
+	if !p.accept("jsonb_each", "jsonb_array_elements") || !p.accept("(") {
 		p.fail(p.i, shape)
 	}
 	src := p.parseExpr()
 	p.requireJSONB(src, p.i, "function "+srf)
-	if !p.acceptOp(")") || !p.acceptOp(")") {
+	if !p.accept(")") || !p.accept(")") {
 		p.fail(p.i, shape)
 	}
 	after := p.i
@@ -669,6 +650,9 @@ func (p *parser) unify(es []*expr) {
 			if err != nil {
 				p.setStatic("22P02", "invalid input syntax for type integer: %q", e.val.s)
 				return
+			}
+			if n != int64(int32(n)) { // an error or not, depending on int4 / int8 resolution
+				p.fail(p.i-1, "quoted literal '%s' outside the integer range is not supported", e.val.s)
 			}
 			e.t, e.val = tyInt, value{k: vInt, i: n}
 		default:
